@@ -47,10 +47,14 @@ static void pointHook(const char * tag)
 	size_t n = std::strlen(tag);
 	bool racy = n > 7 && std::strcmp(tag + n - 7, ".racy_r") == 0;
 	if(racy) { vs::S->point(tag); return; }
-	if(vs::locksHeld() == 0 && g_liveWorkers >= 2) {
+	// structural access: no common policy mutex protects this structure any more (none held, or a different one than the other threads hold)
+	if(vs::g_lockset.access(tag, self()) && g_liveWorkers >= 2) {
 		evt("ua", self(), 0, 0, 0);
 		vs::S->point(tag);
+		return;
 	}
+	// between the writes of a multi-write critical section: unlocked readers may look right now
+	if(n > 6 && std::strcmp(tag + n - 6, ".mid.w") == 0) vs::S->point(tag);
 }
 
 static void listener(const Payload & p)
@@ -113,7 +117,8 @@ static bool execute(vs::Strategy * strategy, long execNo)
 	vs::S = schedp;
 	const int n = (int)g_prog.size();
 	sched.reset(n, strategy);
-	for(int i = 0; i < 16; ++i) vs::g_locksHeld[i] = 0;
+	for(int i = 0; i < 16; ++i) { vs::g_locksHeld[i] = 0; vs::g_heldSet[i].clear(); }
+	vs::g_lockset.reset();
 	g_livePayload = 0;
 	q = new Q();
 	q->appendListener(1, &listener);
